@@ -80,10 +80,16 @@ def w_val(v):
     return "s" + str(v).encode("utf-8").hex()
 
 
+def c4(cfg):
+    """(proto, identifier, credentials, password) of every service; a 5th element False marks a
+    DISABLED service (enabled=False) — the storage does not look at it, so the model does not either"""
+    return [sv[:4] for sv in cfg]
+
+
 def w_cfg(cfg):
     if not cfg:
         return "-"
-    return ",".join("%s:%s:%s:%s" % (PNAME[p], w_val(i), w_val(c), w_val(pw)) for p, i, c, pw in cfg)
+    return ",".join("%s:%s:%s:%s" % (PNAME[p], w_val(i), w_val(c), w_val(pw)) for p, i, c, pw in c4(cfg))
 
 
 def w_content(content):
@@ -147,8 +153,9 @@ def make_conf(cfg, address="127.0.0.1"):
     from pyatv.const import Protocol
 
     c = conf.AppleTV(IPv4Address(address), "verif")
-    for p, i, cr, pw in cfg:
-        c.add_service(conf.ManualService(i, getattr(Protocol, p), 0, {}, cr, pw))
+    for sv in cfg:
+        p, i, cr, pw = sv[:4]
+        c.add_service(conf.ManualService(i, getattr(Protocol, p), 0, {}, cr, pw, enabled=(len(sv) < 5 or bool(sv[4]))))
     return c
 
 
@@ -288,7 +295,7 @@ class Oracle:
         self.problems.append((sig, observed, required, what))
 
     def check_get(self, before, before_ids, cfg, result, storage):
-        cids = [i for _p, i, _c, _pw in cfg if i is not None]
+        cids = [i for _p, i, _c, _pw in c4(cfg) if i is not None]
         sharing = [o for o, oi in zip(before, before_ids) if set(oi) & set(cids)]
         was_stored = any(result is o for o in before)
         if was_stored:
@@ -317,13 +324,30 @@ class Oracle:
                 self.problem("lookup-complete:storage-grew", len(storage.settings), len(before),
                              "lookup of a known device changed the number of stored devices")
 
+    def check_known(self, cfg, obj, before, result_of):
+        """right after update(cfg) / a get(cfg) that created `obj`, every identifier of cfg (of
+        enabled and disabled services alike) identifies that device: a configuration consisting
+        of that one identifier gets `obj` — or an object stored before it that shares the
+        identifier (bridging) — and nothing new is created."""
+        for ident in sorted({i for _p, i, _c, _pw in c4(cfg) if i is not None}):
+            got, created = result_of(ident)
+            earlier = [o for o in before if ident in ids_of(o)]
+            if created:
+                self.problem("lookup-complete:identifier-of-stored-device-unknown", {"identifier": ident, "config": c4(cfg)},
+                             "the object of the device",
+                             "a configuration sharing an identifier with a device that was just stored does not get that "
+                             "device's object: a new, blank object is created")
+            elif got is not obj and not any(got is o for o in earlier):
+                self.problem("lookup-complete:identifier-of-stored-device-gives-other-object", {"identifier": ident, "config": c4(cfg)},
+                             "the object of the device", "a configuration sharing an identifier with a device that was just stored gets another object")
+
     def check_applied(self, cfg, after, storage, where):
         """credentials saved for one device are never applied to another: every credential /
         password a caller put on a configuration (value differs from what the configuration
         came with) must be the value stored for a device sharing an identifier with it."""
-        cids = {i for _p, i, _c, _pw in cfg if i is not None}
+        cids = {i for _p, i, _c, _pw in c4(cfg) if i is not None}
         sharing = [o for o in storage.settings if set(ids_of(o)) & cids]
-        orig = {p: (c, pw) for p, _i, c, pw in cfg}
+        orig = {p: (c, pw) for p, _i, c, pw in c4(cfg)}
         for p, _i, c, pw in after:
             for field, now, was in (("credentials", c, orig.get(p, (None, None))[0]), ("password", pw, orig.get(p, (None, None))[1])):
                 if now == was:
@@ -432,9 +456,16 @@ def execute(kind, ops, loop):
                     before_ids = [ids_of(o) for o in before]
                     conf_obj = make_conf(op[1])
                     try:
+                        def result_of(ident):
+                            n = len(storage.settings)
+                            g = loop.run_until_complete(storage.get_settings(make_conf([["DMAP", ident, None, None]])))
+                            return g, len(storage.settings) != n
+
                         if kind_op == "get":
                             r = loop.run_until_complete(storage.get_settings(conf_obj))
                             number()
+                            if not any(r is o for o in before):
+                                oracle.check_known(op[1], r, before, result_of)
                             res = "h%d" % handles.get(id(r), -1)
                             oracle.check_get(before, before_ids, op[1], r, storage)
                             # BaseConfig.apply with the object handed out
@@ -445,6 +476,11 @@ def execute(kind, ops, loop):
                         else:
                             loop.run_until_complete(storage.update_settings(conf_obj))
                             res = "ok"
+                            cids = {i for _p, i, _c, _pw in c4(op[1]) if i is not None}
+                            tgt = next((o for o in storage.settings if set(ids_of(o)) & cids), None)
+                            if tgt is not None:
+                                pos = [n for n, o in enumerate(storage.settings) if o is tgt][0]
+                                oracle.check_known(op[1], tgt, list(storage.settings)[:pos], result_of)
                     except Exception as e:
                         res = "err:" + type(e).__name__
                 elif kind_op == "scan":
@@ -466,7 +502,7 @@ def execute(kind, ops, loop):
                     for n in ret_idx:
                         if n < 0:
                             continue
-                        cids = {i for _p, i, _c, _pw in op[1][n] if i is not None}
+                        cids = {i for _p, i, _c, _pw in c4(op[1][n]) if i is not None}
                         hit = next((o for o in storage.settings if set(ids_of(o)) & cids), None)
                         if hit is not None:
                             applies.append((content_of(hit), op[1][n], services_of(confs[n])))
@@ -628,6 +664,8 @@ def gen_cfg(rng, mode=None):
     for j, p in enumerate(protos):
         ident = rng.choice(POOLS[d]) if (j == 0 or rng.chance(0.8)) else None
         cfg.append([p, ident, rng.choice(CREDS), rng.choice(CREDS[:7])])
+        if rng.chance(0.2):
+            cfg[-1].append(False)          # a disabled service (e.g. MRP on tvOS 15+): still identifies the device
     return cfg
 
 
@@ -677,7 +715,7 @@ def gen_history(rng, kind, length):
             if c < 0.5:
                 n = rng.choice([2, 3, 3, 4])
                 cfgs = [gen_cfg(rng, rng.choice(["dev"] * 6 + ["noid", "bridge"])) for _ in range(n)]
-                allids = [i for cf in cfgs for _p, i, _c, _pw in cf if i]
+                allids = [i for cf in cfgs for _p, i, _c, _pw in c4(cf) if i]
                 filt = None if (rng.chance(0.25) or not allids) else rng.sample(allids, min(len(allids), rng.choice([1, 1, 2])))
                 ops.append(["scan", cfgs, filt])
                 nobj += n
